@@ -453,7 +453,7 @@ End Doc.
 
 (* well-formedness of the regenerated constants: prefixes are non-empty, plain, start with a letter and the
    prefixes of species, reactions and groups start differently; the five shared parameter ids are pairwise
-   distinct and none of them starts like a reaction id *)
+   distinct, non-empty and none of them starts like a reaction id *)
 Definition head_of (s : str) : Z := match s with c :: _ => c | [] => 0 end.
 Definition prefix_ok (p : str) : bool := forallb is_plain p && is_letter (head_of p).
 Definition env_ok (E : senv) : bool :=
@@ -461,4 +461,5 @@ Definition env_ok (E : senv) : bool :=
   negb (head_of (e_pm E) =? head_of (e_pr E)) && negb (head_of (e_pm E) =? head_of (e_pgrp E)) &&
   negb (head_of (e_pr E) =? head_of (e_pgrp E)) &&
   nodupb [e_lower E; e_upper E; e_zero E; e_minf E; e_pinf E] &&
-  forallb (fun s => negb (head_of s =? head_of (e_pr E))) [e_lower E; e_upper E; e_zero E; e_minf E; e_pinf E].
+  forallb (fun s => negb (is_nil s) && negb (head_of s =? head_of (e_pr E)))
+          [e_lower E; e_upper E; e_zero E; e_minf E; e_pinf E].
